@@ -427,10 +427,18 @@ impl H {
                     self.fail(format!("compact() call #{calls} (which moved pages) made the file larger: {len_before} -> {len_after} bytes"));
                     return;
                 }
-                // Observed with tiny regions only (design.d/C13.md): the closing call of the loop, which
+                // Observed with tiny regions only (design.d/C13.md, O-C13-1): the closing call of the loop, which
                 // moves nothing, re-grows the file by whole regions for its forced commit and cannot trim
-                // all of it again. Counted; still bounded by the size before compaction (checked above).
+                // all of it again. By the property text ("never makes the file larger") this is a violation by
+                // that call; it is reported (recorded finding), the history goes on. With one region spanning
+                // the whole file nothing of the kind happens on the unchanged tree, so there it is fatal.
                 self.mark("noprogress_call_regrew_file");
+                if self.cfg.region_size.is_none() {
+                    self.fail(format!("compact() call #{calls} (which moved nothing) made the file larger: {len_before} -> {len_after} bytes [single region]"));
+                    return;
+                }
+                self.viol.push(format!("a compact() call that moved nothing left the file larger than it found it (tiny regions): call #{calls}, {len_before} -> {len_after} bytes, page {} region {:?} || trace: {}",
+                    self.cfg.page_size, self.cfg.region_size, self.trace.join(" ; ")));
             }
             if len_after < len_before {
                 self.mark("file_shrank");
